@@ -32,6 +32,7 @@ type outcome struct {
 	nontrivial bool
 	key        string
 	steps      int
+	tag        string
 }
 
 type libResult struct {
@@ -239,7 +240,7 @@ func run(c *Case) (fail *report.Failure, out *outcome) {
 	}
 	be := gossipbackend.NewBackend(bv.lib, c.ClockMs)
 	mctx := gossipmodel.NewCtx(bv.ref, c.ClockMs)
-	out.fork, out.target, out.steps = pl.fork, pl.target, len(pl.steps)
+	out.fork, out.target, out.steps, out.tag = pl.fork, pl.target, len(pl.steps), pl.tag
 	topic := c.Msg.Topic
 	id := c.Msg.Corrupt
 	if id == "" {
